@@ -11,11 +11,14 @@ CHECK = dict(
           'are the rows up to the UTXO flush count); then 1-3 runs of the '
           'real electrumx_compact_history.compact_history() end to end or of its loop with batch limits from '
           '"one prefix per batch" to "everything in one", each killed at the (k+1)-th durable operation (each '
-          'batch commit, the final set_flush_count put), stopped after batch k, or completed; resumed or '
+          'batch commit, the final set_flush_count put), failing with a disk-full error (ENOSPC, nothing of the '
+          'operation applied) at one durable operation, stopped after batch k, or completed; resumed or '
           'abandoned; after every step the raw history rows of every script hash must concatenate to exactly '
           'the tx numbers recorded before; then the server is started (abandoned-then-keep-indexing only where '
           'no script hash has more compacted rows than the flush count, as the property restricts; excluded '
-          'cases are counted) and indexes new blocks and reorganisations, audited against RefIndex. '
+          'cases are counted) and indexes new blocks and reorganisations, audited against RefIndex; in half of '
+          'the runs one or two further rounds follow (clean stop, new snapshot, the tool again - e.g. completing '
+          'a compaction abandoned before the server ran - server, blocks, audit). '
           'non-trivial = a compaction ran (done / crashed / stopped) and the invariance oracle was evaluated'),
     assumptions=['SimDB stands in for LevelDB (batches atomic)', 'the tool is loaded from the working tree with '
                  'SourceFileLoader and run on a fresh simulated loop like a separate process'],
